@@ -229,10 +229,11 @@ def execute(R, ctx):
             if k == "two":
                 # probe: verified flag carried by the lighter root
                 ra, rb = db[a], db[b]
-                if ra != rb:
-                    wa, wb = db.weights[ra], db.weights[rb]
+                weights, vroots = getattr(db, "weights", None), getattr(db, "verified_roots", None)
+                if ra != rb and weights is not None and vroots is not None:
+                    wa, wb = weights[ra], weights[rb]
                     light = ra if (wa, ra) < (wb, rb) else rb
-                    if light in db.verified_roots:
+                    if light in vroots:
                         ctx.probe("verified_on_lighter_root")
                 db.add_two_way_edge(a, b)
             else:
